@@ -11,6 +11,7 @@
 package simrt
 
 import (
+	"os"
 	"context"
 	"database/sql"
 	"fmt"
@@ -110,6 +111,10 @@ type Sim struct {
 	gen       uint32
 }
 
+// traceSched (SIMRT_TRACE=1) adds every scheduling decision to the event log
+// of a logged run; a debugging aid for replays.
+var traceSched = os.Getenv("SIMRT_TRACE") != ""
+
 // S is the active simulation; nil means pass-through.
 var S *Sim
 var genCounter uint32
@@ -177,6 +182,9 @@ func (s *Sim) taskEnd(t *Task) {
 		}
 	}
 	wasCur := s.cur == t && t.st() == stRunning
+	if traceSched && s.opts.Log && !s.killed && len(s.Events) < s.opts.MaxLog {
+		s.Events = append(s.Events, fmt.Sprintf("   task %d %s ends", t.ID, t.Name))
+	}
 	t.set(stDone)
 	if t == s.main {
 		s.End = time.Since(s.start)
@@ -280,6 +288,9 @@ func WaitOn(on string) {
 	}
 	t := s.cur
 	t.on = on
+	if traceSched && s.opts.Log && len(s.Events) < s.opts.MaxLog {
+		s.Events = append(s.Events, fmt.Sprintf("   task %d %s waits on %s", t.ID, t.Name, on))
+	}
 	t.set(stWaiting)
 	s.sched <- struct{}{}
 	s.park(t)
@@ -768,6 +779,9 @@ func (s *Sim) loop() {
 		}
 		s.Steps++
 		s.cur = t
+		if traceSched && s.opts.Log && len(s.Events) < s.opts.MaxLog {
+			s.Events = append(s.Events, fmt.Sprintf("   sched -> %d %s (of %d ready, starved %d)", t.ID, t.Name, len(ready), t.starve))
+		}
 		t.set(stRunning)
 		t.wake <- struct{}{}
 		<-s.sched
